@@ -31,7 +31,9 @@ CASES = {   # function -> parameter kinds
     "str_concat": ["str", "str"], "chr_class": ["byte"], "bytes_of_list": ["byte", "byte"], "loop_sum": ["int"],
     "ternary": ["int"], "tuple_ret": ["int", "bytes"], "negative_index_slice": ["bytes"], "length_guard": ["bytes"],
     "all_bytes_small": ["bytes"], "any_byte_zero": ["bytes"], "any_nonzero": ["zbytes"], "all_nonzero": ["zbytes"],
-    "starts_b": ["bytes"], "divmod_const": ["int"], "reversed_bytes": ["bytes"], "listcomp_bytes": ["bytes"], "join_bytes": ["bytes", "bytes"],
+    "starts_b": ["bytes"], "divmod_const": ["int"], "reversed_bytes": ["bytes"], "listcomp_bytes": ["bytes"], "join_bytes": ["bytes", "bytes"], "while_else": ["int"], "for_else": ["bytes"],
+    "try_else_finally": ["bytes", "int"], "nested_try": ["bytes"], "aug_and_unpack": ["int", "int"], "str_ops": ["str"],
+    "conditional_chain": ["int"], "bytes_cmp": ["bytes", "bytes"], "int_conv": ["bytes"],
 }
 REPO_CASES = [   # (file, qualname, [kinds], native accessor, extra parameter specs)
     ("ledger/pin.py", "BasePin.is_valid", ["bytes", "bool"], lambda: importlib.import_module("ledger.pin").BasePin.is_valid,
@@ -122,8 +124,9 @@ def const_term(kind, val):
 def symbolic_paths(root, file, qualname, kinds, pnames, extra=None):
     cls = type("X_" + qualname.replace(".", "_"), (Contract,), dict(
         file=file, qualname=qualname, params=dict({p: SPEC[k] for p, k in zip(pnames, kinds)}, **(extra or {})), pure=True,
+        unwind={0: 6},          # a `while` loop in a test case is unrolled (with its unwinding assertion)
         raises={"Exception": Exc()}, serves=["SELFTEST"]))
-    v = VF.Verifier(root, contracts={})
+    v = VF.Verifier(root, contracts={(file, qualname): cls})
     outs = v.verify(cls)
     paths = []
     for st, out, env, old in outs:
